@@ -13,15 +13,15 @@ type weighted struct {
 var profiles = map[string][]weighted{
 	"safety": {{"apply", 30}, {"tick", 8}, {"isolate", 7}, {"partition", 6}, {"oneway", 3}, {"heal", 9}, {"crash", 6}, {"crashop", 6},
 		{"restart", 7}, {"restartall", 1}, {"lossy", 3}, {"snapshot", 3}, {"addvoter", 2}, {"addnonvoter", 1}, {"demote", 1}, {"remove", 2},
-		{"transfer", 3}, {"verify", 2}, {"barrier", 2}, {"reload", 2}, {"shutdown", 1}, {"stalesuffix", 1}, {"lagcompact", 1}, {"inheritedtail", 1}, {"join", 2}, {"flakyreads", 3}, {"snapfallback", 3}},
+		{"transfer", 3}, {"verify", 2}, {"barrier", 2}, {"reload", 2}, {"shutdown", 1}, {"stalesuffix", 1}, {"lagcompact", 1}, {"inheritedtail", 1}, {"join", 2}, {"flakyreads", 3}, {"snapfallback", 3}, {"figure8", 3}},
 	"election": {{"apply", 15}, {"tick", 8}, {"isolate", 12}, {"partition", 8}, {"oneway", 5}, {"heal", 12}, {"crash", 6}, {"crashop", 10},
 		{"restart", 10}, {"lossy", 6}, {"transfer", 6}, {"reload", 5}, {"addvoter", 1}, {"demote", 1}, {"remove", 2}, {"cutleader", 4}},
 	"snapshot": {{"apply", 35}, {"tick", 6}, {"lagcompact", 8}, {"stalesuffix", 6}, {"snapshot", 8}, {"crash", 6}, {"crashop", 6}, {"restart", 8},
 		{"isolate", 6}, {"heal", 8}, {"restartall", 2}, {"addvoter", 1}, {"remove", 1}, {"demote", 1}, {"transfer", 2}, {"reload", 2}, {"join", 2}, {"flakyreads", 5}, {"snapcfg", 6}, {"staleis", 4}, {"snapfallback", 5}},
 	"durability": {{"apply", 30}, {"tick", 6}, {"restartall", 6}, {"crash", 8}, {"restart", 10}, {"crashop", 8}, {"isolate", 8}, {"partition", 8},
-		{"heal", 10}, {"reload", 4}, {"remove", 1}, {"addvoter", 1}, {"demote", 1}, {"stalesuffix", 4}, {"transfer", 2}, {"lossy", 2}, {"cfgrestart", 5}, {"flakyreads", 3}, {"snapcfg", 4}, {"snapfallback", 5}},
+		{"heal", 10}, {"reload", 4}, {"remove", 1}, {"addvoter", 1}, {"demote", 1}, {"stalesuffix", 4}, {"transfer", 2}, {"lossy", 2}, {"cfgrestart", 5}, {"flakyreads", 3}, {"snapcfg", 4}, {"snapfallback", 5}, {"figure8", 8}},
 	"commit": {{"apply", 35}, {"tick", 6}, {"cutleader", 8}, {"partition", 8}, {"isolate", 4}, {"heal", 10}, {"addvoter", 2}, {"addnonvoter", 2},
-		{"demote", 2}, {"remove", 1}, {"crash", 4}, {"restart", 5}, {"barrier", 2}, {"lossy", 2}, {"join", 2}, {"flakyreads", 3}},
+		{"demote", 2}, {"remove", 1}, {"crash", 4}, {"restart", 5}, {"barrier", 2}, {"lossy", 2}, {"join", 2}, {"flakyreads", 3}, {"figure8", 8}},
 	"membership": {{"apply", 20}, {"tick", 6}, {"addvoter", 9}, {"addnonvoter", 6}, {"demote", 7}, {"remove", 8}, {"transfer", 6}, {"isolate", 6},
 		{"heal", 8}, {"crash", 5}, {"restart", 6}, {"partition", 4}, {"crashop", 4}, {"reload", 2}, {"cutleader", 2}, {"cfgrestart", 3}, {"join", 10}, {"snapcfg", 4}, {"snapshot", 3}},
 	"clients": {{"apply", 45}, {"tick", 5}, {"barrier", 8}, {"transfer", 6}, {"isolate", 5}, {"heal", 6}, {"remove", 2}, {"demote", 1}, {"crash", 4},
@@ -246,6 +246,10 @@ func genAction(t *rapid.T, p *Program, ws []weighted) Action {
 		a.N = oneOf(t, "burst", 2, 3, 5, 10)
 		a.Arg = rapid.IntRange(0, 3).Draw(t, "change")
 		a.Set = []int{rapid.IntRange(0, p.N-1).Draw(t, "member"), oneOf(t, "busyLead", 0, 0, 1, 2, 3)}
+	case "figure8":
+		a.N = rapid.IntRange(0, 5).Draw(t, "ending")
+		a.Arg = rapid.IntRange(0, 1).Draw(t, "interimWrites")
+		a.Set = []int{oneOf(t, "extraBatches", 0, 0, 0, 1)}
 	case "cfgrestart":
 		a.N = oneOf(t, "writes", 0, 1, 1, 2, 3)
 		a.Arg = rapid.IntRange(0, 3).Draw(t, "change")
